@@ -1,0 +1,101 @@
+//go:build verif
+
+package tbtc
+
+import (
+	"crypto/ecdsa"
+
+	"github.com/keep-network/keep-core/pkg/bitcoin"
+)
+
+// Verification hooks for property C26: thin exported wrappers around the
+// unexported transaction assembly functions. No behaviour of their own.
+
+// VerifAssembleDepositSweepTransaction wraps assembleDepositSweepTransaction.
+func VerifAssembleDepositSweepTransaction(
+	bitcoinChain bitcoin.Chain,
+	walletPublicKey *ecdsa.PublicKey,
+	walletMainUtxo *bitcoin.UnspentTransactionOutput,
+	deposits []*Deposit,
+	fee int64,
+) (*bitcoin.TransactionBuilder, error) {
+	return assembleDepositSweepTransaction(
+		bitcoinChain,
+		walletPublicKey,
+		walletMainUtxo,
+		deposits,
+		fee,
+	)
+}
+
+// VerifWithRedemptionTotalFee wraps withRedemptionTotalFee.
+func VerifWithRedemptionTotalFee(
+	totalFee int64,
+) func([]*RedemptionRequest) []int64 {
+	return withRedemptionTotalFee(totalFee)
+}
+
+// VerifAssembleRedemptionTransaction wraps assembleRedemptionTransaction.
+func VerifAssembleRedemptionTransaction(
+	bitcoinChain bitcoin.Chain,
+	walletPublicKey *ecdsa.PublicKey,
+	walletMainUtxo *bitcoin.UnspentTransactionOutput,
+	requests []*RedemptionRequest,
+	feeDistribution func([]*RedemptionRequest) []int64,
+	shape ...RedemptionTransactionShape,
+) (*bitcoin.TransactionBuilder, error) {
+	return assembleRedemptionTransaction(
+		bitcoinChain,
+		walletPublicKey,
+		walletMainUtxo,
+		requests,
+		feeDistribution,
+		shape...,
+	)
+}
+
+// VerifAssembleMovingFundsTransaction wraps assembleMovingFundsTransaction.
+func VerifAssembleMovingFundsTransaction(
+	bitcoinChain bitcoin.Chain,
+	walletMainUtxo *bitcoin.UnspentTransactionOutput,
+	targetWallets [][20]byte,
+	fee int64,
+) (*bitcoin.TransactionBuilder, error) {
+	return assembleMovingFundsTransaction(
+		bitcoinChain,
+		walletMainUtxo,
+		targetWallets,
+		fee,
+	)
+}
+
+// VerifAssembleMovedFundsSweepUtxo wraps assembleMovedFundsSweepUtxo.
+func VerifAssembleMovedFundsSweepUtxo(
+	bitcoinChain bitcoin.Chain,
+	movingFundsTxHash [32]byte,
+	movingFundsTxOutputIdx uint32,
+) (*bitcoin.UnspentTransactionOutput, error) {
+	return assembleMovedFundsSweepUtxo(
+		bitcoinChain,
+		movingFundsTxHash,
+		movingFundsTxOutputIdx,
+	)
+}
+
+// VerifAssembleMovedFundsSweepTransaction wraps
+// assembleMovedFundsSweepTransaction.
+func VerifAssembleMovedFundsSweepTransaction(
+	bitcoinChain bitcoin.Chain,
+	walletPublicKey *ecdsa.PublicKey,
+	movedFundsUtxo *bitcoin.UnspentTransactionOutput,
+	walletMainUtxo *bitcoin.UnspentTransactionOutput,
+	fee int64,
+) (*bitcoin.TransactionBuilder, error) {
+	return assembleMovedFundsSweepTransaction(
+		bitcoinChain,
+		walletPublicKey,
+		movedFundsUtxo,
+		walletMainUtxo,
+		fee,
+	)
+}
